@@ -99,6 +99,7 @@ type runState struct {
 	reads    int
 	attempts int
 	limit    int
+	tooDeep  bool
 	snap     func() rec
 	inner    distsys.FairnessCounter
 	lastBeat time.Time
@@ -107,7 +108,9 @@ type runState struct {
 // FairnessCounter: Run calls BeginCriticalSection at the start of every attempt
 func (rs *runState) BeginCriticalSection(pc string) {
 	rs.attempts++
-	if rs.attempts > rs.limit {
+	if rs.attempts > rs.limit || rs.tooDeep {
+		// the PlusCal programs of the family terminate within a few hundred attempts and a stack
+		// of a few dozen frames; an execution beyond that has already diverged from the model
 		panic(limitReached{})
 	}
 	rs.reads = 0
@@ -126,6 +129,9 @@ func (rs *runState) RecordEvent(ev trace.Event) {
 		rs.streak = 0
 	}
 	st := rs.snap()
+	if fr, ok := st["stack"].([]interface{}); ok && len(fr) > 200 {
+		rs.tooDeep = true
+	}
 	st["e"] = "step"
 	st["abort"] = ev.IsAbort
 	st["inj"] = string(rs.mode)
@@ -287,7 +293,7 @@ func guarded(rs *runState, f func() error) (status, msg string) {
 		case r := <-done:
 			if r.p != nil {
 				if _, ok := r.p.(limitReached); ok {
-					return "limit", fmt.Sprintf("more than %d attempts", rs.limit)
+					return "limit", fmt.Sprintf("more than %d attempts or more than 200 frames", rs.limit)
 				}
 				return "panic", fmt.Sprint(r.p)
 			}
